@@ -1,6 +1,7 @@
 #!/bin/bash
 # offline build of the Coq development (full .vo) from files on disk
 set -e
+python3 "$(dirname "$0")/tools/gen_coq.py"
 cd "$(dirname "$0")/coq"
 coq_makefile -f _CoqProject -o Makefile
 timeout 3000 make -j16
